@@ -35,7 +35,7 @@ func checkC01(c *Ctx) {
 	r.Explanation = "Decides structural necessary conditions of C01 on schemes/enc/v1, each compared with the in-repo published spec (README.md) where the spec gives a number, a name or a formula. " +
 		"The stream rules are evaluated on the INLINED flow of the exported entry points Encrypt and Decrypt: every same-package callee (static call, method, closure, bound method, function value with a known target — parameter, func-typed field, method value, element of a literal table, phi of functions —, interface call on a known concrete type or on an unexported interface with a single implementation, goroutine body) is expanded context-sensitively (depth <= 10, <= 400 contexts, <= 8 alternatives per call site); a call inside a loop over a literal table of structs (<= 8 rows) is expanded once per row with the row's fields as arguments, and stores through a row's pointer field go to that row's target, parameters are followed to arguments, results to the callee's returns (a helper's flag / enum / error result stays correlated with the caller's branch on it), local variables and fields of local objects (nested, by value or behind a pointer, struct copies) to their reaching assignments including the zero value, each with the branch conditions that hold on every path from the assignment to the read. Constructs are found by role (the cipher.AEAD.Seal/Open call, the buffer handed to it as nonce, the Read of the entry point's io.Reader that shares a loop with it, the hkdf.New whose output keys the AEAD, the write that precedes the segments, the io.MultiReader assigned to the stream variable …), never by the name of an unexported function, method, type, field or local. " +
 		"(R1a/R1b) io.Reader contract at every Read of the input: the count is consumed independently of the error (also when the error is tested through a helper predicate), the Read sits in a loop that is never left because one Read was short or empty — neither directly nor through an error manufactured under a test of a single Read's count (a 'no progress' / stall guard counting zero-length reads, consecutive or not: the statement quantifies over all read-size sequences including zero-length reads). (R1c) the segment fill loop is left only when the accumulated count reached the fill limit or an error was seen, reads at most up to that limit, and the limit is the README's segment size (+ tag size under Decrypt) + 1 look-ahead byte. (R1d) the header reader returns a nil error, not the last Read's, with a completely parsed header. " +
-		"(R5) the values that reach the nonce and the AEAD: last <=> 'count did not reach the limit' (symbolic evaluation over phis, return values and branch facts; decided from the Read error or another threshold = violation), data length = count-1 with look-ahead / count without, starting at the start of the fill buffer, the look-ahead byte buffer[count-1] is what is put back at the start of the buffer (indexed store, or copy() from where it was kept) under a flag / length that can be set, with the count restarting at 1 (or at copy's result), counter 0,+1 (loop-carried or kept in a variable / field, incremented after the operation), nothing is processed after last; (R6) a zero-length test of the data dominates the segment operation and some zero-length test in the driver loop has an empty side that reaches a clean Close. " +
+		"(R5) the values that reach the nonce and the AEAD: last <=> 'count did not reach the limit' (symbolic evaluation over phis, return values and branch facts; decided from the Read error or another threshold = violation), data length = count-1 with look-ahead / count without, starting at the start of the fill buffer, the look-ahead byte buffer[count-1] is what is put back at the start of the buffer (indexed store, or copy() from where it was kept) under a flag / length that can be set, with the count restarting at 1 (or at copy's result), counter 0,+1 (loop-carried or kept in a variable / field, incremented after the operation), nothing is processed after last; (R6) a zero-length test of the data dominates the segment operation and some zero-length test in the driver loop has an empty side that reaches a clean Close.  A way out of the segment loop taken after a processed segment because the counter reached a constant must not come before the counter's last value in the README's width (2^32-1): a smaller limit rejects or truncates plaintexts the format can hold. " +
 		"(R2) id/name tables (conditional constant propagation through switch / if / map-table / literal-slice loop / slices.Contains / table-index forms): README ids <-> NewXFromID/ID/Validate, every accepted name survives Validate->ID->FromID->Validate, JSON (un)marshal goes through the tables, the AEAD constructor per accepted cipher, Manifest JSON tags. " +
 		"(R3) spec constants; nonce layout (12 bytes = 7-byte prefix || big-endian uint32 || last flag) in whichever function builds the nonce, whether it writes a buffer in place (copy, PutUint32, indexed store), grows a slice (append, AppendUint32) or does both; for each direction the HKDF call whose output is the HMAC key / the AEAD key has the README's info and salt (salt origin = origin of the nonce prefix) and the wrapped / unwrapped file key as input; HMAC-SHA-256; standard base64; fresh key 32 bytes, prefix 7; header = MACed message || base64(MAC) || LF (make+copy+Encode or append/AppendEncode/Join/Concat forms); pooled buffer >= largest fill limit. " +
 		"(R4) no AAD; the MACed message is scheme line, LF, manifest, LF (Encrypt: json.Marshal output; Decrypt: the bytes exactly as read, never re-encoded); the size limit the header writer enforces covers the complete header and does not exceed what the header reader scans. (R7) the bytes read past the header are copied out of the pooled buffer and put, in front of the rest, into the stream variable the segment phase reads. Every path from a header Read to the segment phase (helper results correlated with the caller's error tests) performs that push-back or has established count <= end-of-header; an early success return that skips both (e.g. when the last header Read carried io.EOF) is a violation; a guard around the push-back that is an opaque flag gives UNDECIDED. (R8) Manifest fields at the point of marshalling originate in the cipher that selects the AEAD, the prefix copied into the nonces, WrapKeyFn's result and algorithm argument, with the documented key-name precedence; Decrypt feeds UnwrapKeyFn / nonce / AEAD selection from the manifest's fields; the signed header is written before the segment loop. " +
@@ -54,7 +54,7 @@ func checkC01(c *Ctx) {
 	r.Rule("C01.R1b-read-in-loop", "every Read sits in a loop whose exits never test the raw count of a single Read (short or empty reads are not 'end of data')", 2)
 	r.Rule("C01.R1c-segment-fill", "segment fill loop: exits only on count>=bound or err!=nil; read window capped at bound; bound = spec segment size (+tag when decrypting) + 1 look-ahead byte", 4)
 	r.Rule("C01.R1d-success-err-nil", "header reader: a return that delivers the parsed header carries a nil error, never the error of the last Read (data may arrive together with io.EOF)", 1)
-	r.Rule("C01.R5-segment-args", "values reaching the nonce and the AEAD: last flag = no look-ahead byte, data length and start, look-ahead byte carried to the next segment, counter (0, +1), nothing after last", 5)
+	r.Rule("C01.R5-segment-args", "values reaching the nonce and the AEAD: last flag = no look-ahead byte, data length and start, look-ahead byte carried to the next segment, counter (0, +1, not cut short of its published range), nothing after last", 5)
 	r.Rule("C01.R6-empty-message", "an empty input produces no segment and ends in a clean Close", 1)
 	r.Rule("C01.R2-tables", "id/name tables agree with each other and with the README; JSON goes through them; getCipher covers the accepted ciphers with the AEAD the spec names", 27)
 	r.Rule("C01.R3-spec-constants", "constants, nonce layout, HKDF/HMAC/base64 parameters equal the README's", 23)
